@@ -310,7 +310,7 @@ func writeEvidence(verifDir string, spec *propertySpec, tier string, seed int64,
 		"functions_examined":   fl,
 	}
 	if p != nil {
-		cov["program"] = map[string]any{"packages": len(p.Pkgs), "source_files": p.nFiles, "functions_with_bodies": len(p.Funcs)}
+		cov["program"] = map[string]any{"packages": len(p.Pkgs), "source_files": p.nFiles, "functions_with_bodies": len(p.Funcs), "operand_pairs_canonicalised": p.nCanon}
 	}
 	if self != nil {
 		cov["self_validation"] = self
